@@ -484,6 +484,8 @@ def generate():
         check_iterator()
     except Untranslatable as e:
         return False, f"util/utf8.hh is outside the translator's subset, PV/Gen/Utf8.lean could not be regenerated: {e}"
+    except Exception as e:       # a statement or expression shape the translator has no rule for (e.g. an empty branch): same verdict
+        return False, f"util/utf8.hh is outside the translator's subset, PV/Gen/Utf8.lean could not be regenerated: unexpected shape ({type(e).__name__}: {e})"
     text = f"""/- GENERATED by tools/gen_utf8.py from {REPO if REPO == '/repo' else '/repo'}/util/utf8.hh (clang AST).  Do not edit.
    IsTrailByte / IsValidCodepoint / DecodeUTF8 as the source has them now; bytes are their unsigned values, the C integer
    conversions have been resolved by the translator (see its header for the rules and side conditions).
